@@ -148,9 +148,26 @@ def out_of_order(case, trace):
     return None
 
 
+def wrong_discard_before(before):
+    """finding F19 happened in this prefix: a setup() with commands of its own (T_SETUP_BEGIN) returned False for entry f and
+    the next stack primitive popped another entry"""
+    us = [e for e in before if e[0] == 19]
+    for k, e in enumerate(us):
+        if e[1] == 1 and e[2][3] == 0 and any(x[1] == 22 and x[2][0] == e[2][0] for x in us[:k]):
+            nxt = next((x for x in us[k + 1:] if x[1] == 15), None)
+            if nxt is not None and nxt[2][0] == 2 and nxt[2][1] != e[2][0]:
+                return True
+    return False
+
+
 def classify(prop, case, res, idx, model=None):
     ev = res[1][idx]
     kind = UT.get(ev[1], str(ev[1])) if ev[0] == 19 else EV.get(ev[0], str(ev[0]))
+    if prop == "C05" and kind == "MODAL_RETURN" and wrong_discard_before(res[1][:idx]):
+        # finding F19 seen from C05: the entry whose setup() failed is MODAL, its setup() had pushed another screen: the
+        # scheduler discards the pushed screen and closes the modal loop; push_screen_modal returns although its own entry
+        # is still on the stack
+        return "failed-setup-after-stack-change:wrong-entry-discarded"
     if prop == "C05" and kind == "MODAL_RETURN":
         r = lib.model_run("smon", [mon_case(105, case, res[1])])[0]
         if r[0] == 1:
